@@ -276,5 +276,11 @@ def run(ctx, rep):
     clause_hydration(prog, rep)
     clause_hydration_sources(prog, rep)
     clause_hydrate_first(prog, rep)
+    import os
+    import sys
+    sys.path.insert(0, os.path.dirname(os.path.abspath(__file__)))
+    import c20
+    import sqlmod
+    c20.clause_list_oldest_first(prog, rep, sqlmod.collect(prog), rule="hydration-coverage")
     clause_queue_storage_agreement(prog, rep)
     clause_self_update_mapping(prog, rep)
